@@ -54,3 +54,5 @@ def run(rep, tier):
     rep.floor('error functions examined', stats['error_functions'], 100)
     from .. import farthest
     farthest.choice_farthest(rep, tier)
+    from .. import controls
+    controls.affine_controls(rep)
